@@ -36,6 +36,20 @@ add(
 )
 
 add(
+    "C08",
+    "exploration",
+    "Generated data sets (n 1..12, d 1..4, duplicates and near-duplicates, targets or fantasy matrices), kernels (Matern-5/2 +-ARD "
+    "+-scale, one / two Kumaraswamy warpings, product, exponential-decay resource kernel), scalar / zero mean and parameters anywhere in "
+    "their boxes incl. corners; kernel matrices against a textbook numpy kernel, then posterior state, predict, neg_log_likelihood, "
+    "sample_joint covariance, update / sample_and_update and GaussianProcessRegression.predict / likelihood against a dense numpy "
+    "reference with conditioning-scaled tolerance. 4.8e4 cases quick, 8e5 thorough.",
+    "The exponential-decay kernel has no harness formula: its matrix is required symmetric / PSD / consistent with diagonal() and the GP "
+    "algebra is checked on it. Cases whose conditioning-scaled tolerance exceeds 1e-3 are counted and skipped. Joint samples: 7 standard errors.",
+    "property-based testing (Hypothesis choice tape): differential against a dense numpy reference implementation",
+    "DESIGN.md 6/C08",
+)
+
+add(
     "C18",
     "exploration",
     "Generated scripts of Reporter calls, noise and must-be-rejected reports, emitted through the real Reporter, written to a "
